@@ -358,6 +358,33 @@ def python_half(ctx):
                           (v["op"], v["arg"], v["dirs"], v["spectrum"], v["nf"], out, sorted(v["allowed"])),
                           {"freq": FREQS[v["nf"]], "values": np.asarray(da.values).tolist(),
                            "dir": (da.dir.values.tolist() if "dir" in da.dims else None)})
+    # ---- interp_like between spectra of different rank: every combination of 1-D / 2-D self and other returns a result on the
+    # other's frequencies (and keeps the own directions when the other has none)
+    import xarray as xr
+    rng3 = random.Random(ctx.seed + 1)
+    for spectrum in ("ordinary", "twopeaks", "zero"):      # (energy wholly outside the target range is degenerate: not part of this stage)
+        two = representative(8, "many", spectrum, rng3)
+        one = representative(8, "none", spectrum, rng3)
+        fo = np.array([0.06, 0.11, 0.19, 0.27])
+        others = {"2-D": xr.DataArray(np.ones((4, 3)), coords={"freq": fo, "dir": [10.0, 130.0, 250.0]}, dims=("freq", "dir"), name="efth"),
+                  "1-D": xr.DataArray(np.ones(4), coords={"freq": fo}, dims=("freq",), name="efth")}
+        for sname, me in (("2-D", two), ("1-D", one)):
+            for oname, other in others.items():
+                if sname == "1-D" and oname == "2-D":
+                    continue        # a frequency spectrum cannot be given directions
+                for okind, o in (("DataArray", other), ("Dataset", other.to_dataset())):
+                    ctx.case(("interp_like", spectrum, sname, oname, okind), True)
+                    try:
+                        out = me.spec.interp_like(o)
+                        ok = np.allclose(out.freq.values, fo) and classify(out) in ("finite", "nan" if spectrum == "zero" else "finite")
+                        what = "result on frequencies %s, values %s" % (out.freq.values, classify(out))
+                    except Exception as ex:  # noqa
+                        ok, what = False, "raised %s: %s" % (type(ex).__name__, str(ex)[:120])
+                    if ok:
+                        ctx.replayed()
+                    else:
+                        ctx.violation({"where": "python", "op": "interp_like", "self": sname, "other": oname, "other_kind": okind, "spectrum": spectrum},
+                                      "interp_like of a %s spectrum onto a %s %s: %s" % (sname, oname, okind, what))
     if vecs:
         ctx.sample({"kind": "outcome-table case", "case": vecs[len(vecs) // 2]})
 
